@@ -23,5 +23,5 @@ For EACH change i (i = 1..{n}) deliver, under {wt}/deliver/m<i>/ :
   * patch.diff   - `git diff` of the change against the worktree's HEAD (only files under src/); the worktree must be back at HEAD (git checkout -- .) when you finish, with the patches saved under deliver/.
   * demo.py      - a self-contained program (no network: use in-memory fakes / socketpairs / monkeypatching as needed; it may import from the test suite's helpers) that exits 0 on the UNCHANGED tree and exits 1 (printing what went wrong) with the change applied. Run it as `PYTHONPATH={wt}/src /venv/bin/python demo.py` in both states and paste both outputs into notes.md.
   * notes.md     - which clause of the property breaks, what exactly is needed for the bug to manifest (the specific sequence/interleaving/input/config), why ordinary use and the existing tests do not expose it.
-Verify (b) by running the pinned test command in the worktree WITH the change applied and comparing with the unchanged tree:  `cd {wt} && PYTHONPATH={wt}/src /venv/bin/python -m pytest -q -p no:cacheprovider --timeout=900 --continue-on-collection-errors --deselect test/contrib/emscripten -rf 2>&1 | tail -5` takes about 2-3 minutes; many tests fail/err on the unchanged tree too because there is no network (about 98 of 785), so compare the SET of failing tests with and without your change (use `-rf` / `--junitxml`), it must be identical. To save time you may first run only the test files that touch the code you changed, then the full run once per change at the end. Record the commands and result summaries in notes.md.
+Verify (b) with the two helper scripts (they are all you need; the suite occasionally HANGS at interpreter exit, the script has a hard limit, never run pytest on the whole suite without `timeout`):  `/tmp/mut_tools/run_tests.sh {wt} {wt}/deliver/m<i>/tests.xml` runs the whole suite of the worktree WITH your change applied (about 2-3 minutes; many tests fail/err on the unchanged tree too because there is no network) and then `python3 /tmp/mut_tools/cmp_tests.py {wt}/deliver/m<i>/tests.xml` tells whether every test of the pinned baseline (683 tests that pass reliably on the unchanged tree) still passes - it must print `NOT passing: 0`. To save time you may first run only the test files that touch the code you changed (`cd {wt} && timeout 300 env PYTHONPATH={wt}/src /venv/bin/python -m pytest -q -p no:cacheprovider --timeout=60 test/test_xxx.py`), then the full run once per change at the end. Record the commands and result summaries in notes.md.
 If a candidate change turns out to be caught by the existing tests, or you cannot demonstrate a violation, discard it and try another. Final message: a short summary per change (file/function changed, what breaks, what it needs to manifest, test-suite result).""")
